@@ -38,6 +38,10 @@ pub enum Op {
     /// a backlog of uplink datagrams queued on the reader channel before the event loop wakes up: they go
     /// through the REAL `drain_packet_queue` (64 per slice, called until the queue is empty, as the loop does)
     Burst(Vec<(u64, Vec<u8>)>, u64, bool),
+    /// link index, datagram, now, classic: the datagram is SENT by the receiver-side socket to the uplink socket,
+    /// picked up by the real reader task (`spawn_reader`: recvmmsg batch -> channel) and handled by the real
+    /// `drain_packet_queue` — the whole return path from the wire to the client socket
+    Net(usize, Vec<u8>, u64, bool),
 }
 
 fn fnv(b: &[u8]) -> u64 {
@@ -78,6 +82,7 @@ pub fn op_lit(o: &Op) -> String {
         Op::Client(b) => format!("SClient {}", boolc(*b)),
         Op::Uplink(id, d, now, cl, full) => format!("UUplink {} {} {} {}", id, wd_lit(d, *full), now, boolc(*cl)),
         Op::Burst(..) => unreachable!("a burst is expanded into its datagrams by run_hist"),
+        Op::Net(i, d, now, cl) => format!("UUplink {} {} {} {}", conn_id_of(*i), wd_lit(d, true), now, boolc(*cl)),
     }
 }
 
@@ -86,7 +91,7 @@ pub fn op_kind(o: &Op) -> &'static str {
         Op::Register(..) => "register", Op::Track(..) => "track", Op::Conn(..) => "set_conn",
         Op::Wait(..) => "set_waiting", Op::Phase(..) => "set_phase", Op::Recon(..) => "set_recon",
         Op::Proof(..) => "set_proof", Op::Mark(..) => "mark_recovery", Op::Client(..) => "set_client",
-        Op::Uplink(..) => "uplink", Op::Burst(..) => "uplink_burst",
+        Op::Uplink(..) => "uplink", Op::Burst(..) => "uplink_burst", Op::Net(..) => "uplink_via_reader",
     }
 }
 
@@ -96,6 +101,12 @@ pub struct World {
     client: StdUdp,
     client_addr: SocketAddr,
     receivers: Vec<StdUdp>,
+    /// local address of every uplink socket (where the receiver side sends to)
+    uplink_addrs: Vec<SocketAddr>,
+    /// the real reader tasks of the uplink sockets (spawned on first use) and their channel
+    readers: Vec<srtla_send::sender::verif_hooks::ReaderHandle>,
+    reader_tx: tokio::sync::mpsc::UnboundedSender<UplinkPacket>,
+    reader_rx: tokio::sync::mpsc::UnboundedReceiver<UplinkPacket>,
     conn_io: ConnIoMap,
     instant_tx: tokio::sync::mpsc::UnboundedSender<(SocketAddr, SmallVec<u8, 64>)>,
     instant_rx: tokio::sync::mpsc::UnboundedReceiver<(SocketAddr, SmallVec<u8, 64>)>,
@@ -120,6 +131,8 @@ impl World {
         client.set_nonblocking(true).unwrap();
         let client_addr = client.local_addr().unwrap();
         let mut receivers = vec![];
+        let mut uplink_addrs = vec![];
+        let (reader_tx, reader_rx) = srtla_send::sender::verif_hooks::create_uplink_channel();
         let mut conn_io: ConnIoMap = HashMap::new();
         for i in 0..MAX_LINKS {
             let r = StdUdp::bind("127.0.0.1:0").unwrap();
@@ -129,12 +142,14 @@ impl World {
             s.bind(&"127.0.0.1:0".parse::<SocketAddr>().unwrap().into()).unwrap();
             s.connect(&raddr.into()).unwrap();
             s.set_nonblocking(true).unwrap();
+            uplink_addrs.push(s.local_addr().unwrap().as_socket().unwrap());
             let bs = { let _g = rt.enter(); BatchUdpSocket::new(s).unwrap() };
             conn_io.insert(conn_id_of(i), ConnIo { socket: Arc::new(bs), binder: Arc::new(SourceIpBinder), remote: raddr });
             receivers.push(r);
         }
         let (instant_tx, instant_rx) = tokio::sync::mpsc::unbounded_channel();
-        World { rt, listener, client, client_addr, receivers, conn_io, instant_tx, instant_rx, conns: vec![],
+        World { rt, listener, client, client_addr, receivers, uplink_addrs, readers: vec![], reader_tx, reader_rx,
+                conn_io, instant_tx, instant_rx, conns: vec![],
                 reg: SrtlaRegistrationManager::new(), tracker: SequenceTracker::new(), client_known: false,
                 slow_path: 0, uplink_out: 0 }
     }
@@ -199,6 +214,38 @@ impl World {
                     let mut slices = 0;
                     while !rx.is_empty() && slices < 10_000 {
                         srtla_send::sender::verif_hooks::drain_packet_queue(&mut rx, conns, conn_io, reg, instant_tx, addr,
+                                                                             listener, tracker, &snap).await;
+                        slices += 1;
+                    }
+                });
+            }
+            Op::Net(i, d, now, classic) => {
+                srtla_core::utils::verif_clock::set(Some(*now));
+                let snap = ConfigSnapshot {
+                    mode: if *classic { SchedulingMode::Classic } else { SchedulingMode::Enhanced },
+                    ..ConfigSnapshot::default()
+                };
+                if self.readers.is_empty() {
+                    let _g = self.rt.enter();
+                    for j in 0..MAX_LINKS {
+                        let io = self.conn_io.get(&conn_id_of(j)).expect("io entry");
+                        self.readers.push(srtla_send::sender::verif_hooks::spawn_reader(
+                            conn_id_of(j), format!("l{}", j), io.socket.clone(), self.reader_tx.clone()));
+                    }
+                }
+                let _ = self.receivers[*i].send_to(d, self.uplink_addrs[*i]);
+                let addr = if self.client_known { Some(self.client_addr) } else { None };
+                let World { rt, listener, conn_io, instant_tx, conns, reg, tracker, reader_rx, .. } = self;
+                rt.block_on(async {
+                    // give the reader task the runtime until the datagram is in the channel (a reader that drops it
+                    // leaves the channel empty: the op then shows no relay and no liveness stamp)
+                    let t0 = std::time::Instant::now();
+                    while reader_rx.is_empty() && t0.elapsed() < std::time::Duration::from_secs(10) {
+                        tokio::time::sleep(std::time::Duration::from_millis(1)).await;
+                    }
+                    let mut slices = 0;
+                    while !reader_rx.is_empty() && slices < 100 {
+                        srtla_send::sender::verif_hooks::drain_packet_queue(reader_rx, conns, conn_io, reg, instant_tx, addr,
                                                                              listener, tracker, &snap).await;
                         slices += 1;
                     }
@@ -358,7 +405,7 @@ pub fn run_hist(w: &mut World, n: usize, ops: &[Op]) -> (String, bool, usize) {
             continue;
         }
         let ob = step(w, o);
-        let full = matches!(o, Op::Uplink(_, _, _, _, true));
+        let full = matches!(o, Op::Uplink(_, _, _, _, true)) || matches!(o, Op::Net(..));
         delivered += ob.fwd.len();
         steps.push(format!("({},{})", op_lit(o), dobs_lit(&prev, &ob, full)));
         if ob.panic { panicked = true; break; }
@@ -740,6 +787,33 @@ pub fn run(seed: u64, tier: &str, out: &Path, extra: &[(String, String)]) -> std
             let (text, p, _) = run_hist(&mut w, n, &ops);
             if p { run.panics += 1; }
             run.push("drain_backlog", true, text);
+        }
+    }
+
+    // the whole return path, from the wire: receiver-side socket -> uplink socket -> real reader task
+    // (recvmmsg batch) -> channel -> real drain -> client socket; sizes around the MTU slot of the reader
+    {
+        let ncase = if thorough { 12 } else { 2 };
+        for k in 0..ncase {
+            let mut r2 = rng.fork(0xE7 + k as u64);
+            let n = 1 + r2.below(2) as usize;
+            let now0 = 3_000_000 + r2.below(1000);
+            let mut ops = vec![Op::Client(true)];
+            for i in 0..n { ops.push(Op::Conn(i, true, Some(now0))); ops.push(Op::Phase(i, Ph::Live)); }
+            let sizes: Vec<usize> = if k == 0 { vec![24, 1332, 1499, 1500, 2, 1500, 64] }
+                                    else { (0..8).map(|_| *r2.pick(&[2usize, 3, 16, 24, 188, 1316, 1332, 1400, 1498, 1499, 1500])).collect() };
+            for (j, sz) in sizes.iter().enumerate() {
+                let i = r2.below(n as u64) as usize;
+                let mut d = vec![0u8; *sz];
+                for (x, b) in d.iter_mut().enumerate() { *b = ((x * 31 + j * 7 + k) & 0xff) as u8; }
+                // SRT data (first bit clear) or an SRT control type that is not SRTLA-internal
+                if r2.chance(3, 4) { d[0] &= 0x7f; } else { d[0] = 0x80; d[1] = 0x07; }
+                ops.push(Op::Net(i, d, now0 + 10 + j as u64, r2.chance(1, 3)));
+                run.count("op:uplink_via_reader");
+            }
+            let (text, p, _) = run_hist(&mut w, n, &ops);
+            if p { run.panics += 1; }
+            run.push("wire_to_client", true, text);
         }
     }
 
